@@ -6,15 +6,17 @@ import common as c
 def run(ctx):
     q = ctx.quick()
     c.tlc_l1(ctx, "Tms.tla", "MC_Tms.cfg", workers=4)
-    for w in ("Reach_Cascade2", "Reach_MultiJust"):
+    for w in ("Reach_Cascade2", "Reach_MultiJust", "Reach_Consume"):
         c.tlc_l1(ctx, "Tms.tla", "MC_Tms_%s.cfg" % w, expect_violation=w, workers=2)
     if not q:
         c.tlc_l1(ctx, "Tms.tla", "MC_Tms_big.cfg", workers=8, timeout=2400, xmx="16g")
     M = "Tms.tla"
     if q:
-        c.graph_leg(ctx, M, "tms", "Gen_Tms.cfg", {"NH": 5}, 500, 10, 4, "Sim_Tms.cfg", 1500, 11, sim_cfgobj={"NH": 7})
+        c.graph_leg(ctx, M, "tms", "Gen_Tms.cfg", {"NH": 5}, 500, 10, 4, "Sim_Tms.cfg", 1500, 11, sim_cfgobj={"NH": 7},
+                    variants=[{"skew": 1}, {"skew": 2}, {"skew": 3}], variant_walks=300)     # justification ids ahead of fact handles
     else:
-        c.graph_leg(ctx, M, "tms", "Gen_Tms.cfg", {"NH": 5}, 5000, 10, 5, "Sim_Tms.cfg", 40000, 11, sim_cfgobj={"NH": 7})
+        c.graph_leg(ctx, M, "tms", "Gen_Tms.cfg", {"NH": 5}, 5000, 10, 5, "Sim_Tms.cfg", 40000, 11, sim_cfgobj={"NH": 7},
+                    variants=[{"skew": 1}, {"skew": 2}, {"skew": 3}], variant_walks=3000)
         c.graph_leg(ctx, M, "tms", "Gen_Tms_5.cfg", {"NH": 5}, 20000, 10, 4, timeout=3000)
     ctx.cov["rule"] = ("behaviours = shortest path + one edge for every (state,label) of the TLC-dumped lock-step Tms graph "
                        "(ideal greatest-fixpoint retraction x as-built ordered cascade), all op sequences to the all-histories "
